@@ -13,7 +13,7 @@ def explicit(tier, seed):
     # livelock hunt: >=2 branches parking on an already-due timed suspension, staggered
     for nb in (2, 3, 4):
         for kind in ("par", "map"):
-            for timeout in (None, 0, 30):
+            for timeout in (None, 0, 30, 365 * 10000 * 86400):
                 for extra in ("none", "running-sibling", "waiting-sibling", "nested"):
                     if tier == "quick" and rng.random() < 0.5:
                         continue
